@@ -69,7 +69,7 @@ Definition sh_pres {A} (f : A -> string) (x : pres A) : string :=
 Definition sh_dres (d : dres) : string :=
   match d with
   | DOk s => pct_encode s | DBounds => "ERR bounds" | DSyntax => "ERR syntax" | DOverflow => "EXC OverflowError"
-  | DErr => "ERR other" | DUnmodelled => "UNMODELLED" end.
+  | DErr => "ERR other" | DUnmodelled => "UNMODELLED" | DBadInput => "ERR badinput" end.
 
 Definition parse_text (md : mode) (cfg : pcfg) (text : string) (as_parsed : bool) : pres ptp :=
   if negb (is_ascii_str text) then PErr EUnmodelled
